@@ -31,6 +31,7 @@ class Cfg:
 
 
 K1, K2, K3 = "k1", "k2", "k3"
+NKEYS = 3                # keys per multi-key call
 USE_DEFAULTS = False     # C07: pass non-None defaults (by keyword) to the read operations
 
 
@@ -40,11 +41,11 @@ def op_call(op, nr=None, kind="client"):
     if nr is not None:
         kw["noreply"] = nr
     if op in ("set", "add", "replace", "append", "prepend"):
-        return (K1 if op != "add" else K3, b"val"), kw
+        return (K1 if op != "add" else K3, b"5"), kw
     if op == "cas":
-        return (K1, b"val", b"1"), kw
+        return (K1, b"6", b"1"), kw
     if op == "set_many":
-        return ({K1: b"a", K2: b"b", K3: b"c"},), kw
+        return (dict(list({K1: b"1", K2: b"2", K3: b"3"}.items())[:NKEYS]),), kw
     if op == "get":
         return (K1,), ({"default": "DFLT"} if USE_DEFAULTS else {})
     if op == "gets":
@@ -54,11 +55,11 @@ def op_call(op, nr=None, kind="client"):
     if op == "gats":
         return (K1,), dict({"expire": 100}, **({"default": "DFLT", "cas_default": "CASD"} if USE_DEFAULTS else {}))
     if op in ("get_many", "gets_many"):
-        return ([K1, K3, K2],), {}
+        return ([K1, K3, K2][:NKEYS],), {}
     if op == "delete":
         return (K2,), kw
     if op == "delete_many":
-        return ([K1, K2, K3],), kw
+        return ([K1, K2, K3][:NKEYS],), kw
     if op in ("incr", "decr"):
         return (K1, 1), kw
     if op == "touch":
@@ -110,7 +111,7 @@ class Stack:
             fams = [net.AF_INET, net.AF_INET6, net.AF_INET]
             addrs = [(fams[i], "10.0.0.%d" % (i + 1)) for i in range(cfg.naddr)]
         self.srv = net.add_server(skey, addrs=addrs)
-        for k, v in ((b"k1", b"10"), (b"k2", b"two")):
+        for k, v in ((b"k1", b"10"), (b"k2", b"20")):
             self.srv.store[k] = refserver.Item(v, 0, 0, self.srv._next_cas())
         kw = dict(socket_module=net, connect_timeout=cfg.ctmo, timeout=cfg.tmo, no_delay=cfg.nodelay,
                   ignore_exc=cfg.ignore_exc, default_noreply=cfg.default_noreply,
@@ -185,7 +186,7 @@ _miss_cache = {}
 def miss_result(cfg):
     """what the same call returns for a miss: computed on an empty healthy server of the same stack"""
     def f(op, nr):
-        key = (cfg.kind, cfg.default_noreply, op, nr, USE_DEFAULTS)
+        key = (cfg.kind, cfg.default_noreply, op, nr, USE_DEFAULTS, NKEYS)
         if key not in _miss_cache:
             c2 = Cfg(**{**cfg.__dict__, "ignore_exc": cfg.ignore_exc})
             st = Stack(c2)
